@@ -71,6 +71,17 @@ def compare(impl_path, model_path, tol=1e-9, tol_solve=1e-7, skip_labels=(), con
                 rep["max_cond"] = max(rep["max_cond"], cnd)
                 if base in SOLVE_LABELS: t = t * max(1.0, cnd / 100.0)
             mk = ("o", seq, label)
+            if mk in M:
+                # results of a (near-)singular solve, and workspace entries derived from them, are garbage on both
+                # sides (inputs are O(1)): not compared
+                def mag(tk):
+                    b = 0.0
+                    for x in tk:
+                        v = tonum(x)
+                        if v is not None: b = max(b, abs(v)) if math.isfinite(v) else float("inf")
+                    return b
+                if (base in SOLVE_LABELS and max(mag(toks), mag(M[mk])) > 1e7) or (mag(toks) > 1e7 and mag(M[mk]) > 1e7):
+                    rep["discarded_ill_conditioned"] += 1; continue
             if mk in M and M[mk] == ["singular"]:
                 rep["discarded_ill_conditioned"] += 1; continue
             if mk not in M and ("o", seq, "qdd") in M and M[("o", seq, "qdd")] == ["singular"]: continue
